@@ -108,6 +108,11 @@ type Spec struct {
 	StartDecl bool    `json:"start_decl"` // false: rely on the default start symbol name `start`
 	Fields    []Field `json:"fields,omitempty"`
 	NoRec     bool    `json:"norec,omitempty"` // actions do not call Rec (generator-only workloads)
+	// EOFAlias, when set, declares `%token <EOFAlias> -1` (the idiom of examples/e.y): a named alias of the end marker
+	// that user code may return from GetToken
+	EOFAlias string `json:"eof_alias,omitempty"`
+	// OpTab is set for operator tables (family F3): which terminals are binary / prefix operators, NUM and parentheses
+	OpTab *OpTable `json:"optab,omitempty"`
 	// RawActions, when set, replaces the rendered action of rule i by this text (C19 out-of-range $n etc.)
 	RawActions map[int]string `json:"raw_actions,omitempty"`
 }
@@ -406,6 +411,9 @@ func (s *Spec) Prune() *Spec {
 		} else {
 			mapN[i] = -1
 		}
+	}
+	if len(nt) != len(c.Terms) {
+		c.OpTab = nil // terminal indices change: the operator-table description no longer applies
 	}
 	c.Terms, c.NTs = nt, nn
 	c.Start = mapN[c.Start]
